@@ -8,6 +8,8 @@ structure St where
   s : State := init
   nObj : Nat := 3
   nRef : Nat := 5
+  cont : List Nat := []      -- reference ids of the elements of a `con::Container<SafePtr<Obj>>`, in order
+  nextC : Nat := 1000
 
 def parseOp : List String → Option Op
   | ["newobj", o] => do some (.newObj (← o.toNat?))
@@ -29,7 +31,14 @@ def observe (st : St) : String :=
       let p := pointer st.s r
       some (if p = 0 then s!"{r}:0" else s!"{r}:{p}:{if isLast st.s r then "L" else "N"}")
     else none
-  " ".intercalate parts
+  let showRef (tag : String) (r : Nat) : String :=
+    let p := pointer st.s r
+    if p = 0 then s!"{tag}:0" else s!"{tag}:{p}:{if isLast st.s r then "L" else "N"}"
+  let cparts := (st.cont.zipIdx).map fun (r, k) => showRef s!"c{k + 1}" r
+  " ".intercalate (parts ++ cparts)
+
+/-- run several model operations; `none` if any is illegal -/
+def runOps (s : State) (ops : List Op) : Option State := ops.foldlM (fun s op => Morfuse.SafePtr.step s op) s
 
 def step (st : St) (t : List String) : St × String :=
   match t with
@@ -37,6 +46,44 @@ def step (st : St) (t : List String) : St × String :=
     match no.toNat?, nr.toNat? with
     | some a, some b => ({ s := init, nObj := a, nRef := b }, "ok")
     | _, _ => (st, "bad-op")
+  -- move semantics: on this code base a move is a copy; the harness clears the source afterwards
+  | ["moveassign", r, q] =>
+    match r.toNat?, q.toNat? with
+    | some r, some q =>
+      if r > st.nRef || q > st.nRef || r == q then (st, "bad-op") else
+      match runOps st.s [.assignRef r q, .clear q] with
+      | some s' => let st' := { st with s := s' }; (st', "ok " ++ observe st')
+      | none => (st, "bad-op")
+    | _, _ => (st, "bad-op")
+  | ["movector", r, q] =>
+    match r.toNat?, q.toNat? with
+    | some r, some q =>
+      if r > st.nRef || q > st.nRef then (st, "bad-op") else
+      match runOps st.s [.copyRef r q, .clear q] with
+      | some s' => let st' := { st with s := s' }; (st', "ok " ++ observe st')
+      | none => (st, "bad-op")
+    | _, _ => (st, "bad-op")
+  -- a container of weak references (the engine's ConList): AddObject / RemoveObjectAt / growth
+  | ["cadd", o] =>
+    match o.toNat? with
+    | some o =>
+      if o > st.nObj || st.cont.length ≥ 40 then (st, "bad-op") else
+      match Morfuse.SafePtr.step st.s (.newRef st.nextC o) with
+      | some s' => let st' := { st with s := s', cont := st.cont ++ [st.nextC], nextC := st.nextC + 1 }; (st', "ok " ++ observe st')
+      | none => (st, "bad-op")
+    | none => (st, "bad-op")
+  | ["cremove", i] =>
+    match i.toNat? with
+    | some i =>
+      if i == 0 || i > st.cont.length then (st, "bad-op") else
+      -- objlist[j] = move_if_noexcept(objlist[j+1]) for j = i-1 .. n-2, then destroy the last
+      let ids := st.cont.drop (i - 1)
+      let shifts := (ids.zip (ids.drop 1)).map (fun (a, b) => Op.assignRef a b)
+      let last := st.cont.getLastD 0
+      match runOps st.s (shifts ++ [.delRef last]) with
+      | some s' => let st' := { st with s := s', cont := st.cont.dropLast }; (st', "ok " ++ observe st')
+      | none => (st, "bad-op")
+    | none => (st, "bad-op")
   | _ =>
     match parseOp t with
     | none => (st, "bad-op")
